@@ -1831,6 +1831,12 @@ int parse_instruction_68000(AsmContext *asm_context, char *instr)
             {
               operands[operand_count].type = OPERAND_INDEX_DATA16_PC;
             }
+              else
+            {
+              // Not a0-a7, sp or pc (for example a8).
+              print_error_unexp(asm_context, token);
+              return -1;
+            }
           }
 
           token_type = tokens_get(asm_context, token, TOKENLEN);
